@@ -518,6 +518,10 @@ fn run_history<Q: QueueBackend + 'static>(rng: &mut Rng, ctx: &mut Ctx, focus: F
     dev.tst = if rng.chance(1, 3) { Some(*rng.pick(fail_table())) } else { None };
     let mut trace: Vec<String> = vec![];
     let mut hh = hash_str(Q::NAME);
+    // one Context for the whole history, as an interface keeps it: its message-available flag is whatever the
+    // interface last reported (it is not re-assigned before every message)
+    let mut c = Context::default();
+    let mut cur_mav = false;
     for step in 0..nsteps {
         bump(ctx, 1);
         // device-side condition changes
@@ -600,7 +604,14 @@ fn run_history<Q: QueueBackend + 'static>(rng: &mut Rng, ctx: &mut Ctx, focus: F
         if rng.chance(1, 3) {
             msg.push(b'\n');
         }
-        let mav = rng.bool();
+        let mav = if rng.chance(2, 3) {
+            cur_mav = rng.bool();
+            c.mav = cur_mav;
+            cur_mav
+        } else {
+            ctx.count("messages.context-reused-without-touching-mav");
+            cur_mav
+        };
         // model
         let mut want_resp: Vec<u8> = vec![];
         let mut alts: Vec<(usize, Vec<u8>, Vec<u8>)> = vec![];
@@ -632,8 +643,6 @@ fn run_history<Q: QueueBackend + 'static>(rng: &mut Rng, ctx: &mut Ctx, focus: F
         // run: growable response buffer, or now and then the fixed-capacity one sized so that everything fits exactly,
         // or so that only the terminator does not (then every unit has run and the message fails with -225, which is
         // queued and flagged like any other failure)
-        let mut c = Context::default();
-        c.mav = mav;
         let fixed: Option<usize> = if want_fail.is_none() && alts.is_empty() && !want_resp.is_empty() && want_resp.len() <= 49 && rng.chance(1, 6) { Some(if rng.chance(1, 3) { want_resp.len() } else { want_resp.len() - 1 }) } else { None };
         let (r, resp) = match fixed {
             None => {
